@@ -426,8 +426,13 @@ def check_unpeer_shape(prog, rep, rule):
                    any(isinstance(x, ast.Call) and isinstance(x.func, ast.Name) and x.func.id == 'len' and x.args and ctext(x.args[0]) == ptxt
                        for x in (cj.left, cj.comparators[0])) and
                    any(isinstance(x, ast.Constant) and x.value == 5 for x in (cj.left, cj.comparators[0])) for cj in cjs)
-        typed = any(atxt is not None and atxt in ctext(cj) and mentions_service_port(cj) for cj in cjs)
-        rep.instance(rule, f'NetworkService.unpeer: {norm(r_, 70)} only on a five-element path: {len5}; removed port verified to be a ServicePort: {typed}')
+        # the removed element is established to be a port of one of the two services: its type is tested, or it is found among
+        # the connection points of the service
+        owned = any(atxt is not None and atxt in ctext(cj) and
+                    any(isinstance(x, ast.Call) and call_name(x) in ('get_all_ns_or_link_connection_points', 'get_parent', 'find_connection_point_by_name')
+                        for x in ast.walk(cj)) for cj in cjs)
+        typed = owned or any(atxt is not None and atxt in ctext(cj) and mentions_service_port(cj) for cj in cjs)
+        rep.instance(rule, f'NetworkService.unpeer: {norm(r_, 70)} only on a five-element path: {len5}; removed port established to be a port of the service: {typed}')
         if not len5 or not typed:
             rep.violation(rule, loc(uns.module, r_), 'NetworkService.unpeer', f'{norm(r_, 70)} without establishing that the services peer',
                           'unpeer takes whatever shortest path joins the two services and deletes its second and second-to-last element; for '
@@ -671,7 +676,7 @@ MUTANTS = [
      'find': "        if peers[0].node_id not in self.topo.graph_model.get_all_ns_or_link_connection_points(link_id=self.node_id):\n            raise TopologyException(f'Interface {interface} is not connected to network service {self.name}')\n",
      'replace': ""},
     {'name': 'unpeer-any-path', 'file': 'fim/user/network_service.py', 'rule': 'R5',
-     'find': "        if len(sp) != 5 or not self.__is_service_port(sp[1]) or not self.__is_service_port(sp[-2]):",
+     'find': "        if len(sp) != 5 or \\\n                sp[1] not in self.topo.graph_model.get_all_ns_or_link_connection_points(link_id=self.node_id) or \\\n                sp[-2] not in self.topo.graph_model.get_all_ns_or_link_connection_points(link_id=ns.node_id):",
      'replace': "        if len(sp) == 0:"},
     {'name': 'sub-interfaces-not-disconnected-on-node-removal', 'file': 'fim/user/topology.py', 'rule': 'R4',
      'find': "        for i in [x for top in self.nodes[name].interface_list for x in (top,) + tuple(top.interface_list)]:", 'replace': "        for i in self.nodes[name].interface_list:"},
